@@ -428,6 +428,7 @@ type Report struct {
 	MaxPathSteps    int64
 	IntrinsicsUsed  []string
 	PanicViolations []string
+	Notes           map[string]int // Note label -> paths on which it can fail
 }
 
 type exploration struct {
@@ -610,6 +611,12 @@ func (x *exploration) merge(w *Worker, sum PathSummary, ps *pathState) {
 	}
 	for c := range ps.covers {
 		r.Covers[c]++
+	}
+	for n := range ps.notes {
+		if r.Notes == nil {
+			r.Notes = map[string]int{}
+		}
+		r.Notes[n]++
 	}
 	for a, n := range ps.asserts {
 		r.Asserts[a] += n
